@@ -1,5 +1,5 @@
 import MosnVerif.Lemmas.VhostTable
-import MosnVerif.Model.VhostSpec
+import MosnVerif.Model.VhostCase
 /-!
 The fast index follows the route list, and the `vht` cases of the harness (one lookup concurrent with
 `RemoveAllRoutes; AddRoute new₀; …`) satisfy the declarative reference `Model/VhostSpec.lean` under every schedule.
@@ -86,16 +86,6 @@ theorem serialPubs_all (P : View α K → Prop) (eff : Nat → View α K → Vie
     · exact ih _ (hP t v hv) x hx
 
 /-! ### the cases of the harness -/
-
-open VhostSpec in
-/-- thread 0 = the lookup for request `q`, thread 1 = `RemoveAllRoutes`, thread `j + 2` = `AddRoute new[j]` -/
-def caseCalls (new : List R) (first : Bool) (q : Nat) : Nat → Call R Nat
-  | 0 => if first then .entries (R.mt q) else .all (R.mt q)
-  | 1 => .removeAll
-  | t + 2 =>
-    match new[t]? with
-    | some r => .add r r.key
-    | none => .kv 0
 
 open VhostSpec in
 theorem caseCalls_keyed (new : List R) (first : Bool) (q : Nat) (t : Nat) : keyed R.key (caseCalls new first q t) := by
